@@ -26,7 +26,8 @@ SPECIAL = [
     ("chapter", {"description": ["d"], "image": ["/i.png"], "icon": ["/i.png"]}, ["", "Chapter"], True),
     ("guide", {}, ["", "/page1", "/nope"], True),
     ("ia", {}, [""], True),
-    ("entry", {"id": ["e1", ""], "url": ["https://x.y", "/page1", "/nope"], "project-name": ["proj"], "primary": ["true", ""]}, ["", "Title"], True),
+    ("entry", {"id": ["e1", ""], "url": ["https://x.y", "/page1", "/nope", "/page1.txt", "page1", "page2", "/guides/g1", "g1", "guides/g1", "/page2/", "/index", ""],
+               "project-name": ["proj"], "primary": ["true", ""]}, ["", "Title"], True),
     ("card-group", {"columns": ["3", "x"], "ia-entry-id": ["e1", "zz"], "layout": ["default"], "style": ["default"], "type": ["small"]}, [""], True),
     ("card", {"headline": ["H"], "url": ["https://x.y"], "cta": ["c"], "icon": ["general_content_learn"], "tag": ["t"]}, [""], True),
     ("wayfinding", {}, ["", "arg"], True),
@@ -49,13 +50,15 @@ SPECIAL = [
     ("option", {}, ["", "--port", "-f <x>"], True),
     ("openapi", {"uses-realm": [""], "preview": [""], "api-version": ["2.0"]}, ["", "/specs/x.yaml", "/nope.yaml"], False),
     ("default-domain", {}, ["", "mongodb", "zz"], False),
-    ("replacement", {}, ["", "sub"], True),
+    ("replacement", {}, ["", "sub", "sub2"], "repl"),
     ("glossary", {}, [""], "glossary"),
     ("list-table", {"header-rows": ["1", "x"], "widths": ["10 20", "x"]}, [""], "table"),
     ("io-code-block", {"copyable": ["true"]}, [""], "io"),
     ("code-block", {"emphasize-lines": ["1", "99"]}, ["", "python"], "code"),
 ]
-INLINE = ["plain", "*emph*", "**strong**", "``lit``", ":ref:`a`", ":ref:`text <a>`", ":ref:`nope`", ":doc:`/page1`", ":doc:`/nope`", "|sub|", "|nosub|",
+SUBST_BODIES = ["x", "|sub|", "*e*", "|sub| (formerly |sub|)", "|sub2|", "|sub2| and |sub2|", "|sub| or |sub2| or |sub|", ":ref:`a` |sub|", "|nosub|"]
+INLINE = ["plain", "*emph*", "**strong**", "``lit``", ":ref:`a`", ":ref:`text <a>`", ":ref:`nope`", ":doc:`/page1`", ":doc:`/nope`", ":doc:`page1`", ":doc:`/guides/g1`",
+          "|sub|", "|sub2|", "|nosub|",
           ":guilabel:`x`", ":method:`db.x()`", "`link <https://x.y>`__", "`named`_", "[#f]_", ":option:`--port`", ":option:`mongod --port`",
           ":abbr:`a (b)`", ":icon:`check`", ":rfc:`1`"]
 
@@ -71,7 +74,8 @@ def gen_block(rng, depth, indent=""):
     if r < 0.30:
         return [indent + f".. _{rng.choice(['a', 'b', 'a'])}:", ""]
     if r < 0.34:
-        return [indent + rng.choice([".. |sub| replace:: x", ".. |sub| replace:: |sub|", ".. [#f] note", ".. comment", ".. m1", ".. m2", ".. _named: https://x.y"]), ""]
+        return [indent + rng.choice([".. |sub| replace:: x", ".. |sub| replace:: |sub|", ".. |sub| replace:: |sub| and |sub|", ".. |sub2| replace:: |sub| |sub|",
+                                     ".. |sub| replace:: |sub2|", ".. [#f] note", ".. comment", ".. m1", ".. m2", ".. _named: https://x.y"]), ""]
     if r < 0.40:
         out = []
         for _ in range(rng.randint(1, 3)):
@@ -90,8 +94,14 @@ def gen_block(rng, depth, indent=""):
             lines += gen_block(rng, depth + 1, ci)
     elif content == "toc":
         for _ in range(rng.randint(0, 3)):
-            lines.append(ci + rng.choice(["/page1", "/page2", "/nope", "Title </page1>", "https://x.y", "Ext <https://x.y>", "/index", "page1", "/includes/inc0"]))
+            lines.append(ci + rng.choice(["/page1", "/page2", "/nope", "Title </page1>", "https://x.y", "Ext <https://x.y>", "/index", "page1", "/includes/inc0",
+                                          "/page1.txt", "/guides/g1", "g1", "guides/g1", "/page2/", "T <page2>"]))
         lines.append("")
+    elif content == "repl":
+        if rng.random() < 0.85:
+            lines += [ci + rng.choice(SUBST_BODIES), ""]
+        else:
+            lines += gen_block(rng, depth + 1, ci)
     elif content == "glossary":
         for _ in range(rng.randint(0, 2)):
             lines += [ci + rng.choice(["term", "Term B"]), ci + "  def", ""]
@@ -103,6 +113,17 @@ def gen_block(rng, depth, indent=""):
                 lines += [ci + f".. {part}::", ci + "   :language: python", "", ci + "   x = 1", ""]
     elif content == "code":
         lines += [ci + "x = 1", ""]
+    return lines
+
+
+def gen_ia(rng):
+    urls = ["/page1", "/page2", "/page1.txt", "page1", "page2", "/guides/g1", "g1", "guides/g1", "/guides/g1.txt", "/nope", "https://x.y", "/index", "/page2/", "../page1"]
+    lines = [".. ia::", ""]
+    for _ in range(rng.randint(1, 4)):
+        lines += ["   .. entry::" + rng.choice(["", " Title"]), "      :url: " + rng.choice(urls)]
+        if rng.random() < 0.3:
+            lines.append("      :id: e1")
+        lines.append("")
     return lines
 
 
@@ -206,8 +227,14 @@ class C02(core.PropertyCheck):
             files = {"index.txt": gen_page(rng)}
             for k in range(rng.randint(0, 2)):
                 files[f"page{k + 1}.txt"] = gen_page(rng)
+            if rng.random() < 0.35:
+                files["guides/g1.txt"] = gen_page(rng)
             for k in range(rng.randint(0, 2)):
                 files[f"includes/inc{k}.rst"] = gen_page(rng, f"includes/inc{k}.rst")
+            if rng.random() < 0.12:
+                # information-architecture stream: every page opens with an `ia` block, so the IA tree is really walked
+                for f in [f for f in files if f.endswith(".txt")]:
+                    files[f] = "T %s\n=====\n\n" % f.split(".")[0].replace("/", " ") + "\n".join(gen_ia(rng)) + "\n" + files[f].replace("=====", "-----")
             cfg = {}
             if rng.random() < 0.3:
                 cfg["default_domain"] = rng.choice(["mongodb", "std"])
@@ -216,7 +243,9 @@ class C02(core.PropertyCheck):
             if rng.random() < 0.2:
                 cfg["multi_page_tutorials"] = ["/page1"]
             if rng.random() < 0.3:
-                cfg["substitutions"] = {"sub": rng.choice(["x", "|sub|", "*e*"])}
+                cfg["substitutions"] = {"sub": rng.choice(SUBST_BODIES)}
+                if rng.random() < 0.5:
+                    cfg["substitutions"]["sub2"] = rng.choice(SUBST_BODIES)
             yield {"kind": "project", "files": files, "cfg": cfg}
 
     # ---- event walk cases: [kind, children] with kinds root/dir/dli/plain
